@@ -200,13 +200,45 @@ async def _reading_handler(request):
     return web.Response(text=f"read{len(body)}")
 
 
+_SPINS: list = []
+
+
+async def _touching_handler(request):
+    """Looks at everything a handler may look at; what it cannot have, it does without."""
+    from aiohttp import web
+
+    from mc import core
+
+    seen = []
+    for attr in ("url", "host", "scheme", "remote", "cookies", "content_type", "charset", "content_length", "if_modified_since",
+                 "if_match", "if_none_match", "if_range", "http_range", "forwarded", "keep_alive", "query", "rel_url", "secure"):
+        try:
+            with core.deadline(2.0):
+                getattr(request, attr)
+            seen.append(attr)
+        except core.ExecutionTimeout:
+            _SPINS.append(attr)
+        except Exception:  # noqa: BLE001
+            pass
+    try:
+        await request.text()
+    except Exception:  # noqa: BLE001
+        pass
+    return web.Response(text=f"saw{len(seen)}")
+
+
 def server_case(part: Part, stream: bytes, label, reading=False):
     from mc.server import serve_stream_app
 
-    r = serve_stream_app(stream, handler=_reading_handler) if reading else serve_stream_app(stream)
+    h = {False: None, True: _reading_handler, "touch": _touching_handler}[reading]
+    del _SPINS[:]
+    r = serve_stream_app(stream, handler=h) if h else serve_stream_app(stream)
     part.count("executions")
     part.count("server_runs")
     case = {"kind": "server", "stream": stream, "label": repr(label), "reading": reading}
+    for attr in _SPINS:
+        part.violation(f"C10:server:request-attribute-does-not-return:{attr}",
+                       f"request.{attr} did not return within 2 s of CPU time for {stream[:80]!r}", case)
     if r["escaped"]:
         part.violation(f"C10:server:exception-escapes-data_received:{r['escaped'][0]}",
                        f"{r['escaped']} escaped RequestHandler.data_received for {stream[:80]!r}", case)
@@ -227,6 +259,10 @@ def server_case(part: Part, stream: bytes, label, reading=False):
                            f"parser reports {perr} for {stream[:80]!r} but the server answered {sts} (closed={r['closed']})", case)
         elif not r["closed"]:
             part.violation("C10:server:protocol-error-not-closed", f"4xx sent for {perr} but the connection stays open: {stream[:80]!r}", case)
+    if not perr and o["msgs"] and not r["escaped"] and not r["handler_alive"] and not [x for x in r["responses"] if not 100 <= x[0] < 200]:
+        part.violation("C10:server:accepted-request-unanswered",
+                       f"the parser accepts {stream[:80]!r} but the server sent no response (closed={r['closed']}, "
+                       f"handler_alive={r['handler_alive']})", case)
     return r
 
 
@@ -312,6 +348,10 @@ def _job(job):
             for cuts in [()] + [(i,) for i in range(1, len(s))]:
                 run_stream(part, s, cuts, "request", "default", {}, label)
             server_case(part, s, label)
+        for label, s in hc.hostile_header_streams():
+            run_stream(part, s, (), "request", "default", {}, label)
+            server_case(part, s, label)
+            server_case(part, s, label, reading="touch")
     elif kind == "responses":
         _k, ri, cfgname = job
         label, s, pkw = hc.response_streams()[ri]
@@ -394,6 +434,10 @@ def replay(case):
                     break
             else:
                 lab = case.get("label")
+                mls, mfs, _mh = _limits(CONFIGS[case["config"]])
+                for ul, us, _s in hc.unterminated_streams(mls, mfs):
+                    if us == case["stream"]:
+                        expect, lab = "reject", (ul, mls, mfs)
         else:
             lab = case.get("label")
         run_stream(part, case["stream"], tuple(case["cuts"]), k, case["config"], case.get("pkw") or {}, lab, expect)
